@@ -255,7 +255,13 @@ def handleImpl (ds : DState) (op : String) (args impl : List String) : Option (D
     | [rel, holder] =>
       let key := s!"link:{rel}@{(slotId st holder).getD "?"}"
       -- entity sources can be queried by id only (`hasSource(id)`)
-      fin st (judge s!"xlinks.{rel}" impl impl ((relXcheck st key impl (rel != "src")).filter fun r => r.1 != "index_order_is_creation_order"))
+      let rules := (relXcheck st key impl (rel != "src")).filter fun r => r.1 != "index_order_is_creation_order"
+      -- the sources attached to an entity come from anywhere in the block's source tree: names are unique per PARENT, so two attached
+      -- sources may share a name (then a lookup by that name is ambiguous and not judged); references and members are siblings
+      let rules := if rel != "src" then rules else
+        let ambiguous := rules.any fun r => r.1 == "names_unique_within_parent" && !r.2
+        rules.filter fun r => r.1 != "names_unique_within_parent" && !(ambiguous && (r.1.startsWith "name_lookup_returns_the_entity" || r.1.startsWith "has_by_name"))
+      fin st (judge s!"xlinks.{rel}" impl impl rules)
     | _ => fin st (.malformed "xlinks")
   | "dump" | "dumpx" =>
     match Dump.parse impl with
